@@ -18,19 +18,35 @@ from . import gates
 from .exporter import QCircuitExporter
 
 
+def _qubit_names(_selfqc):
+    """Return one name for every qubit, in index order"""
+    names = []
+    for i in range(_selfqc.num_qubits):
+        try:
+            names.append(_selfqc.get_key_by_index(i))
+        except Exception:
+            # The qubit lost its name (its symbol has been re-defined on another qubit)
+            name = f"q_{i}"
+            while name in _selfqc.qubit_map:
+                name = f"_{name}"
+            names.append(name)
+    return names
+
+
 class QasmExporter(QCircuitExporter):
     def __init__(self, version=3):
         self.version = version
 
     def export_v3(self, _selfqc, mode: Literal["circuit", "gate"]):
+        names = _qubit_names(_selfqc)
         gate_qasm = f"gate {_selfqc.name} "
-        gate_qasm += " ".join(_selfqc.qubit_map.keys())
+        gate_qasm += " ".join(names)
         gate_qasm += " {\n"
         for g, ws, p in _selfqc.gates:
             if issubclass(g.__class__, gates.NopGate):
                 continue
 
-            qbs = list(map(lambda gq: _selfqc.get_key_by_index(gq), ws))
+            qbs = list(map(lambda gq: names[gq], ws))
             if p:
                 gate_qasm += f'\t{g.__name__.lower()}({p:.2f}) {" ".join(qbs)}\n'
             else:
@@ -52,14 +68,15 @@ class QasmExporter(QCircuitExporter):
         return qasm
 
     def export_v2(self, _selfqc, mode: Literal["circuit", "gate"]):
+        names = _qubit_names(_selfqc)
         gate_qasm = f"gate {_selfqc.name} "
-        gate_qasm += " ".join(_selfqc.qubit_map.keys())
+        gate_qasm += " ".join(names)
         gate_qasm += " {\n"
         for g, ws, p in _selfqc.gates:
             if issubclass(g.__class__, gates.NopGate):
                 continue
 
-            qbs = list(map(lambda gq: _selfqc.get_key_by_index(gq), ws))
+            qbs = list(map(lambda gq: names[gq], ws))
             if p:
                 gate_qasm += f'\t{g.__name__.lower()}({p:.2f}) {" ".join(qbs)}\n'
             else:
